@@ -154,7 +154,7 @@ Outcome runOp(const Case& c) {
     }
     case InflateFree: {
       Paths64 sol = InflatePaths(a, delta, jt, et, c.D("ml", 2.0), c.D("at", 0.0));
-      checkClosed(sol, o);
+      if (delta != 0) checkClosed(sol, o);   // delta 0 hands the input back unchanged
       o.outSize = sol.size();
       break;
     }
